@@ -258,6 +258,8 @@ class VectorContainer:
             and self.__dict__['_strict']
             and name not in self.__dict__['index']
             and name not in self.__dict__['_attributes']  # TODO: Check inclusion here
+            # Properties defined on the class (e.g. `values`) aren't new attributes
+            and not isinstance(getattr(type(self), name, None), property)
         ):
             message = f"Unable to add new attribute '{name}' with `strict=True`"
 
